@@ -22,7 +22,9 @@ EXTENDS AllianceMath, SequencesExt, Functions
 CONSTANTS ValOrd,    \* validators in address (store) order, e.g. <<"v0","v1","v2">>
           DelOrd,    \* delegators in address order
           DenOrd,    \* all denoms in byte order (alliance assets and reward denoms)
-          BondDenom  \* the staking denom
+          BondDenom, \* the staking denom
+          \* which repairs of DESIGN.md section 7 the tree under test contains (the model describes the code as it is)
+          FixF1, FixF2, FixF4, FixF5, FixF6, FixF7, FixN1, FixN3
 
 Pos(sq, x) == IF \E i \in DOMAIN sq : sq[i] = x THEN CHOOSE i \in DOMAIN sq : sq[i] = x ELSE 0
 
@@ -168,6 +170,17 @@ UnbondingTime(s) == s.env.unbonding
 NewDelSharesPanics(asset, info, a) == DelSharesDivZero(ValTokens(asset, info, a), Get(info.dshares, a))
 NewDelShares(asset, info, a, x) == DelSharesFromTokens(ValTokens(asset, info, a), Get(info.dshares, a), x)
 
+\* Keeper.ValidateDelegatedAmount: [ok, panic, shares].  FixN3: a request for exactly the token value of the
+\* delegation withdraws all of its shares (checked before any conversion).
+ValidateAmt(asset, info, a, delShares, x) ==
+  IF FixN3 /\ x = DelTokens(asset, info, a, delShares) THEN [ok |-> TRUE, panic |-> FALSE, shares |-> delShares]
+  ELSE IF NewDelSharesPanics(asset, info, a) THEN [ok |-> FALSE, panic |-> TRUE, shares |-> "0"]
+  ELSE LET r == ValidateDelegated(delShares, NewDelShares(asset, info, a, x)) IN [ok |-> r.ok, panic |-> FALSE, shares |-> r.shares]
+
+\* validator shares that stand for x tokens of the asset; FixN1: capped at what the validator holds
+ValSharesToRemove(asset, info, a, x) ==
+  LET raw == ValidatorSharesFor(asset, x) IN IF FixN1 /\ BLt(Get(info.vshares, a), raw) THEN Get(info.vshares, a) ELSE raw
+
 \* upsertDelegationWithNewTokens (info = the caller's copy of the validator)
 Upsert(s, d, v, a, newShares, info) ==
   LET k == <<d, v, a>>
@@ -205,8 +218,10 @@ ClearDust(s, d, v, a, info, asset) ==
       vsh == IF IsZero(ValTokens(asset, info, a)) THEN Get(info.vshares, a) ELSE "0"
       pan == ReducePanics(info, a, dsh, vsh)
       info2 == ReduceInfo(info, a, dsh, vsh)
-      s2 == [s1 EXCEPT !.vals[v] = info2]
-  IN  [panic |-> pan, s |-> IF pan THEN s ELSE ResetAsset(s2, a, asset)]
+      \* FixN1: the validator's dust shares leave the asset's share total as well
+      asset2 == IF FixN1 /\ IsPos(vsh) THEN [asset EXCEPT !.vshares = BSub(@, vsh)] ELSE asset
+      s2 == [s1 EXCEPT !.vals[v] = info2, !.assets[a] = IF FixN1 /\ IsPos(vsh) THEN asset2 ELSE @]
+  IN  [panic |-> pan, s |-> IF pan THEN s ELSE ResetAsset(s2, a, asset2)]
 
 HasRedelegationInto(s, d, dst, a) == \E k \in DOMAIN s.redRec : k[1] = d /\ k[2] = a /\ k[3] = dst
 
@@ -254,14 +269,13 @@ Undelegate(s, d, v, a, x) ==
           LET s1 == rc.s
               info == s1.vals[v]
               del == s1.dels[k]
-          IN  IF NewDelSharesPanics(asset, info, a) THEN Fail("panic: division by zero", s)
-              ELSE
-                LET vr == ValidateDelegated(del.shares, NewDelShares(asset, info, a, x))
-                IN  IF ~vr.ok THEN Fail("insufficient delegation shares", s)
+          IN  LET vr == ValidateAmt(asset, info, a, del.shares, x)
+              IN  IF vr.panic THEN Fail("panic: division by zero", s)
+                    ELSE IF ~vr.ok THEN Fail("insufficient delegation shares", s)
                     ELSE IF BLt(DelTokens(asset, info, a, vr.shares), x) THEN Fail("insufficient tokens", s)
                     ELSE IF ValidatorSharesDivZero(asset) THEN Fail("panic: division by zero", s)
                     ELSE
-                      LET vsh == ValidatorSharesFor(asset, x)
+                      LET vsh == ValSharesToRemove(asset, info, a, x)
                           asset2 == [asset EXCEPT !.total = BSub(@, x), !.vshares = BSub(@, vsh)]
                           s2 == ReduceDel([s1 EXCEPT !.assets[a] = asset2], k, vr.shares)
                       IN  IF ReducePanics(info, a, vr.shares, vsh) THEN Fail("panic: negative coin amount", s)
@@ -302,16 +316,15 @@ Redelegate(s, d, src, dst, a, x, SettleNewDst) ==
                     sinfo == s1.vals[src]
                     dinfo == s1.vals[dst]
                     sdel == rc1.s.dels[ks]      \* re-queried after the first claim only
-                IN  IF NewDelSharesPanics(asset, sinfo, a) THEN Fail("panic: division by zero", s)
-                    ELSE
-                      LET vr == ValidateDelegated(sdel.shares, NewDelShares(asset, sinfo, a, x))
-                      IN  IF ~vr.ok THEN Fail("insufficient delegation shares", s)
+                IN  LET vr == ValidateAmt(asset, sinfo, a, sdel.shares, x)
+                      IN  IF vr.panic THEN Fail("panic: division by zero", s)
+                          ELSE IF ~vr.ok THEN Fail("insufficient delegation shares", s)
                           ELSE IF BLt(DelTokens(asset, sinfo, a, vr.shares), x) THEN Fail("insufficient tokens", s)
                           ELSE IF HasRedelegationInto(s1, d, src, a) THEN Fail("transitive redelegation", s)
                           ELSE IF ValidatorSharesDivZero(asset) THEN Fail("panic: division by zero", s)
                           ELSE
                             LET t == s.now + UnbondingTime(s)
-                                chg == ValidatorSharesFor(asset, x)
+                                chg == ValSharesToRemove(asset, sinfo, a, x)
                                 left == BSub(sdel.shares, vr.shares)
                                 s2 == IF IsZero(left) THEN [s1 EXCEPT !.dels = DropKey(@, ks)]
                                       ELSE [s1 EXCEPT !.dels[ks] = [sdel EXCEPT !.shares = left]]
@@ -373,10 +386,9 @@ SlashRedLoop(s, keys, f, CapAtPosition) ==
                           want0 == TruncInt(DMulInt(f, rec.bal))
                           held == DelTokens(asset, info, a, del.shares)
                           want == IF CapAtPosition /\ BLt(held, want0) THEN held ELSE want0
-                      IN  IF NewDelSharesPanics(asset, info, a) THEN Fail("panic: division by zero", s1)
-                          ELSE
-                            LET vr == ValidateDelegated(del.shares, NewDelShares(asset, info, a, want))
-                            IN  IF ~vr.ok THEN Fail("insufficient delegation shares", s1)
+                      IN  LET vr == ValidateAmt(asset, info, a, del.shares, want)
+                            IN  IF vr.panic THEN Fail("panic: division by zero", s1)
+                                ELSE IF ~vr.ok THEN Fail("insufficient delegation shares", s1)
                                 ELSE IF BLt(Get(info.dshares, a), vr.shares) THEN Fail("panic: negative coin amount", s1)
                                 ELSE
                                   LET s2 == [s1 EXCEPT !.vals[dst].dshares = Put(@, a, BSub(Get(@, a), vr.shares)),
@@ -605,7 +617,7 @@ RebalanceLoop(s, pre, vseq) ==
         ELSE IF CVRPanics(s1, v) THEN Fail("panic: division by zero", s1)
         ELSE
           LET s2 == CVR(s1, v)
-              modified == IsPos(delta) \/ ~FullUnbond(pre, v, BNeg(delta))
+              modified == IsPos(delta) \/ FixF4 \/ ~FullUnbond(pre, v, BNeg(delta))
           IN  RebalanceLoop(IF modified THEN [s2 EXCEPT !.flag = TRUE] ELSE s2, pre, Tail(vseq))
 RebalanceModule(s) ==
   IF ~s.flag THEN Ok(s)
